@@ -66,16 +66,16 @@ def _mk(cls_name, props, expected, som=None, dates=False):
 
 
 # ---- counts ---------------------------------------------------------------------------
-_mk("_WeightedCounts", ("C01", "C04"), lambda B, env: spec.count_blocks(B, env, env.w))
-_mk("_UnweightedCounts", ("C01", "C04"), lambda B, env: spec.count_blocks(B, env, env.u))
+_mk("_WeightedCounts", ("C01", "C04", "C03"), lambda B, env: spec.count_blocks(B, env, env.w))
+_mk("_UnweightedCounts", ("C01", "C04", "C02", "C09"), lambda B, env: spec.count_blocks(B, env, env.u))
 
 # ---- bases ----------------------------------------------------------------------------
-_mk("_RowWeightedBases", ("C02", "C04"), lambda B, env: spec.row_base_blocks(B, env, env.w))
-_mk("_RowUnweightedBases", ("C02", "C04"), lambda B, env: spec.row_base_blocks(B, env, env.u))
-_mk("_ColumnWeightedBases", ("C02", "C04"), lambda B, env: spec.column_base_blocks(B, env, env.w))
-_mk("_ColumnUnweightedBases", ("C02", "C04"), lambda B, env: spec.column_base_blocks(B, env, env.u))
-_mk("_TableWeightedBases", ("C02", "C04"), lambda B, env: spec.table_base_blocks(B, env, env.w))
-_mk("_TableUnweightedBases", ("C02", "C04"), lambda B, env: spec.table_base_blocks(B, env, env.u))
+_mk("_RowWeightedBases", ("C02", "C04", "C03", "C11"), lambda B, env: spec.row_base_blocks(B, env, env.w))
+_mk("_RowUnweightedBases", ("C02", "C04", "C03", "C11"), lambda B, env: spec.row_base_blocks(B, env, env.u))
+_mk("_ColumnWeightedBases", ("C02", "C04", "C03", "C11"), lambda B, env: spec.column_base_blocks(B, env, env.w))
+_mk("_ColumnUnweightedBases", ("C02", "C04", "C03", "C11"), lambda B, env: spec.column_base_blocks(B, env, env.u))
+_mk("_TableWeightedBases", ("C02", "C04", "C03", "C11"), lambda B, env: spec.table_base_blocks(B, env, env.w))
+_mk("_TableUnweightedBases", ("C02", "C04", "C03", "C11"), lambda B, env: spec.table_base_blocks(B, env, env.u))
 
 
 # ---- proportions ----------------------------------------------------------------------
@@ -95,11 +95,11 @@ def _som_props(direction):
     return som
 
 
-_mk("_RowProportions", ("C03", "C04"), lambda B, env: spec.proportion_blocks(B, env, env.w, "row"),
+_mk("_RowProportions", ("C03", "C04", "C11", "C13", "C17", "C20"), lambda B, env: spec.proportion_blocks(B, env, env.w, "row"),
     som=_som_props("row"), dates=True)
-_mk("_ColumnProportions", ("C03", "C04"), lambda B, env: spec.proportion_blocks(B, env, env.w, "column"),
+_mk("_ColumnProportions", ("C03", "C04", "C11", "C13", "C17", "C20"), lambda B, env: spec.proportion_blocks(B, env, env.w, "column"),
     som=_som_props("column"), dates=True)
-_mk("_TableProportions", ("C03", "C04"), lambda B, env: spec.proportion_blocks(B, env, env.w, "table"),
+_mk("_TableProportions", ("C03", "C04", "C11", "C13", "C17", "C20"), lambda B, env: spec.proportion_blocks(B, env, env.w, "table"),
     som=_som_props("table"))
 
 
@@ -482,7 +482,7 @@ class SecondOrderMeasuresWiring(Contract):
     right (weighted / unweighted) cube counts.  The table below is written from the names."""
 
     name = MOD + ":SecondOrderMeasures.<wiring>"
-    props = ("C02", "C03", "C05", "C10", "C11", "C14")
+    props = ("C01", "C02", "C03", "C04", "C05", "C10", "C11", "C12", "C13", "C14", "C15", "C16", "C17", "C20")
 
     SIMPLE = {
         "column_comparable_counts": "_ColumnComparableCounts", "column_index": "_ColumnIndex",
